@@ -65,6 +65,7 @@ class SerialDevice:
         self.rx_exceptions = []       # exceptions escaping data_received
         self.writes = []              # (seq#, t_us, unit, bytes)
         self.hostbuf = bytearray()
+        self.observed = []            # (arrival us, bits, value) of foreign forward frames
         self.mute = False             # gateway stopped talking (fault)
 
     def attach(self, proto, tr):
@@ -280,8 +281,9 @@ class LubaGW(SerialDevice):
 
     # ---- traffic of other masters --------------------------------------------
     def observe_forward(self, bits, value, at_us):
-        self.event(2, bits, list(value.to_bytes(bits // 8, "big")),
-                   at_us + 3000 + self.lat.draw(self.name, "of", self.nmsg), "obs")
+        t = self.event(2, bits, list(value.to_bytes(bits // 8, "big")),
+                       at_us + 3000 + self.lat.draw(self.name, "of", self.nmsg), "obs")
+        self.observed.append((t, bits, value))
 
     def observe_backward(self, value, at_us, error=False):
         if error:
@@ -408,9 +410,10 @@ class SciGW(SerialDevice):
         b = list(value.to_bytes(3, "big"))     # right-aligned (receive layout)
         code = 3 if bits == 16 else 8
         self.nmsg += 1
-        self.send_bytes(sci_frame((self.device_id << 4) | code, *b),
-                        at_us + 1500 + self.lat.draw(self.name, "of", self.nmsg),
-                        ("obs", self.nmsg))
+        t = self.send_bytes(sci_frame((self.device_id << 4) | code, *b),
+                            at_us + 1500 + self.lat.draw(self.name, "of", self.nmsg),
+                            ("obs", self.nmsg))
+        self.observed.append((t, bits, value))
 
     def observe_backward(self, value, at_us, error=False):
         self.nmsg += 1
